@@ -18,11 +18,16 @@ Reset0 ==
   /\ answered' = {}
   /\ nextOp' = 1
   /\ cfg' = Log[l].ev.cfg
+  /\ fx' = FxInit(Log[l].ev.cfg)
   /\ ev' = Log[l].ev
 
 MetaOf(x) == [epoch |-> x.epoch, lepoch |-> x.lepoch, leader |-> x.leader,
               replicas |-> Range(x.replicas), isr |-> Range(x.isr),
               minISR |-> x.minISR, status |-> x.status]
+
+FMetaOf(x) == [epoch |-> x.epoch, lepoch |-> x.lepoch, leader |-> x.leader,
+               replicas |-> Range(x.replicas), isr |-> Range(x.isr),
+               minISR |-> x.minISR, status |-> x.status, rg |-> x.rg]
 
 Step(e) ==
   CASE e.a = "Init"       -> Reset0
@@ -35,6 +40,13 @@ Step(e) ==
     [] e.a = "Abort"      -> Abort(e.b)
     [] e.a = "Checkpoint" -> Checkpoint(e.v)
     [] e.a = "Append"     -> AppendReq(e.op, e.mode, e.n)
+    [] e.a = "FMeta"      -> e.id = fx.nf /\ FMeta(FMetaOf(e.m))
+    [] e.a = "LoadDone"   -> LoadDone(e.err)
+    [] e.a = "PullResp"   -> PullResp(e.f, e.n, e.lhw, e.lleo)
+    [] e.a = "ApplyDone"  -> ApplyDone(e.f)
+    [] e.a = "Tick"       -> Tick
+    [] e.a = "CkptDone"   -> CkptDone(e.err)
+    [] e.a = "InstallDone" -> InstallDone(e.tok, e.leo, e.hw, e.err)
 
 TraceNext == l <= Len(Log) /\ l' = l + 1 /\ Step(Log[l].ev)
 
